@@ -272,13 +272,13 @@ class LaplaceTransformer(UnilateralForwardTransformer):
 
         elif expr.func is tri:
             warn('Laplace transform ignores tri(t) for t < 0')
-            return 1 / s - (1 - sym.exp(-s / scale)) / (scale * s**2)
+            return 1 / s - scale * (1 - sym.exp(-s / scale)) / s**2
 
         elif expr.func is ramp:
             return scale / s**2
 
         elif expr.func is rampstep:
-            return (1 - sym.exp(-s / scale)) / s**2
+            return scale * (1 - sym.exp(-s / scale)) / s**2
 
         return None
 
